@@ -63,6 +63,13 @@ def _split_acc(l):
             rest = [f for f in fs if f is not srcs[0]]
             mask = rest[0] if len(rest) == 1 else ("mul",) + tuple(rest)
             v = ("idx", srcs[0], v[2])
+    if v[0] == "idx" and unobj(v[1])[0] == "call" and unobj(v[1])[1][0] in ("attr", "name") and len(unobj(v[1])[2]) == 1 and not unobj(v[1])[3]:
+        # <private helper>(cs)[IDX]: the restriction was extracted into a helper that is not a plain expression (it has a
+        # loop); the helper is examined by the rule that needs it
+        c_ = unobj(v[1])
+        hname = c_[1][2] if c_[1][0] == "attr" else c_[1][1]
+        if hname.startswith("_") and q == "phase":
+            return t[1][1], q, t[2], c_[2][0], "phase", v[2], factor, ("helper", hname)
     if not (v[0] == "idx" and v[1][0] == "attr"):
         return None
     return t[1][1], q, t[2], v[1][1], v[1][2], v[2], factor, mask
@@ -101,14 +108,25 @@ def run(E: Engine, rep: Report, tier: str) -> dict:
     # a channel's phase enters a view only over its own pulses: its phase array holds the last pulse's phase while the
     # channel idles (and is edge-padded), so adding it whole gives a pulse of ANOTHER channel on the same basis the sum
     # of both phases.  Every phase statement adds `cs.phase * <mask>` with a mask filled, slot by slot, from cs.amp.
-    mask_fills = [l for l in St.logged("store") if l.fn == tnd.short and l.target is not None and l.target[0] == "idx" and l.target[1][0] == "obj" and mentions(l.value, "amp") and mentions(l.target[2], "ti", "tf")]
+    mask_fills = [l for l in St.logged("store") if l.target is not None and l.target[0] == "idx" and l.target[1][0] == "obj" and mentions(l.value, "amp") and mentions(l.target[2], "ti", "tf")]
     n_ph = 0
     for l, p in accs:
         if p[1] != "phase":
             continue
         n_ph += 1
         m_ = p[7]
-        ok_m = m_ is not None and any(sym.contains(m_, f_.target[1]) and sym.contains(f_.value, p[3]) for f_ in mask_fills)
+        if m_ is not None and m_[0] == "helper":
+            # the helper returns <its argument>.phase * <mask>, the mask being filled slot by slot from <its argument>.amp
+            hf = next((g for g in E.P.all_functions() if g.name == m_[1] and g.module is tnd.module), None)
+            ok_m = False
+            if hf is not None and hf.params:
+                par = ("name", [x for x in hf.params if x not in ("self", "cls")][0])
+                Sh = S(E, hf)
+                r_h = unobj(Sh.ret) if Sh.ret is not None else None
+                fills_h = [f_ for f_ in Sh.logged("store") if f_.target is not None and f_.target[0] == "idx" and f_.target[1][0] == "obj" and mentions(f_.value, "amp") and mentions(f_.target[2], "ti", "tf") and sym.contains(f_.value, par)]
+                ok_m = r_h is not None and r_h[0] == "mul" and any(f == ("attr", par, "phase") for f in r_h[1:]) and any(sym.contains(r_h, f_.target[1]) for f_ in fills_h)
+        else:
+            ok_m = m_ is not None and any(sym.contains(m_, f_.target[1]) and sym.contains(f_.value, p[3]) for f_ in mask_fills)
         rep.check(ok_m, "SIB", f"to_nested_dict|phase-only-over-own-pulses|{n_ph}", "the phase added is cs.phase masked by the channel's own non-zero pulse slots",
                   f"`{sh(l.target, 60)} += {sh(l.value, 80)}` adds the channel's whole phase array: while the channel idles the array still holds its last pulse's phase, so with two channels on one basis a pulse of the other channel is given the sum of both phases (X(pi/2) then Y(pi/2) on two channels is not the same as on one)", E.where(tnd, l.node))
     if n_ph < 3:
